@@ -12,8 +12,8 @@ structure JudgeFacts (rt : Routing) (c : Call) (o : Out) : Prop where
   valid : o.exch.all (fun e => validReq e.req) = true
   fallback : fallbackOk c o.exch = true
   target : ∀ r s, targetOk ⟨c, o.exch, o.res, r, s⟩ = true
-  mirror : o.exch.all exchInScope = true → o.exch.foldl foldExch rt = o.rt
-  result : o.exch.all exchInScope = true → ∀ r s, resultOk ⟨c, o.exch, o.res, r, s⟩ = true
+  mirror : o.exch.foldl foldExch rt = o.rt
+  result : ∀ r s, resultOk ⟨c, o.exch, o.res, r, s⟩ = true
 
 theorem judgeFacts_runCall (rt : Routing) (c : Call) (rs : List Reaction) (hn : (keys rt).Nodup) (hw : callWF c) :
     JudgeFacts rt c (runCall cfg rt c rs) :=
@@ -62,37 +62,35 @@ theorem phase2_fallbacks (t : Int) (rens : List ((Str × Nat) × Reaction)) (p :
       · simp [h200, ih, isRefused]
       · simp [h200, ih, isRefused]
 
-theorem phase2_mirror (t : Int) (rens : List ((Str × Nat) × Reaction)) (p : P2)
-    (hs : (rens.map (renE cfg t)).all exchInScope = true) :
+theorem phase2_mirror (t : Int) (rens : List ((Str × Nat) × Reaction)) (p : P2) :
     (rens.map (renE cfg t)).foldl foldExch p.rt = (resubPhase2 t rens p).rt := by
   induction rens generalizing p with
   | nil => rfl
   | cons x more ih =>
     obtain ⟨⟨sid, svc⟩, r⟩ := x
-    simp only [List.map_cons, List.all_cons, Bool.and_eq_true] at hs
     simp only [List.map_cons, List.foldl_cons]
     cases r with
     | connErr =>
       have : foldExch p.rt (renE cfg t ((sid, svc), .connErr)) = erase p.rt sid := by
         simp [foldExch, renE, ren_method, ren_sid]
-      rw [this]; exact ih { p with rt := erase p.rt sid, first := _ } hs.2
+      rw [this]; exact ih { p with rt := erase p.rt sid, first := _ }
     | connTimeout =>
       have : foldExch p.rt (renE cfg t ((sid, svc), .connTimeout)) = erase p.rt sid := by
         simp [foldExch, renE, ren_method, ren_sid]
-      rw [this]; exact ih { p with rt := erase p.rt sid, first := _ } hs.2
+      rw [this]; exact ih { p with rt := erase p.rt sid, first := _ }
     | resp status sid' th =>
       simp only [resubPhase2]
       by_cases h200 : status = 200
       · subst h200
         simp only [ne_eq, not_true_eq_false, if_false]
-        have := (ren_exch_spec cfg p.rt svc sid t sid' th hs.1).1
+        have := (ren_exch_spec cfg p.rt svc sid t sid' th).1
         simp only [renE] at this ⊢
         rw [this]
-        exact ih { p with rt := (renewFinish p.rt svc sid t sid' th).1, first := _ } hs.2
+        exact ih { p with rt := (renewFinish p.rt svc sid t sid' th).1, first := _ }
       · simp only [ne_eq, h200, not_false_eq_true, if_true]
         have : foldExch p.rt (renE cfg t ((sid, svc), .resp status sid' th)) = erase p.rt sid := by
           simp [foldExch, renE, ren_method, ren_sid, h200]
-        rw [this]; exact ih { p with rt := erase p.rt sid, fallbacks := _ } hs.2
+        rw [this]; exact ih { p with rt := erase p.rt sid, fallbacks := _ }
 
 theorem phase3_nodup (t : Int) (subs : List (Nat × Reaction)) (p : Routing × Option Exc) (hn : (keys p.1).Nodup) :
     (keys (resubPhase3 t subs p).1).Nodup := by
@@ -100,19 +98,17 @@ theorem phase3_nodup (t : Int) (subs : List (Nat × Reaction)) (p : Routing × O
   | nil => exact hn
   | cons x more ih => exact ih _ (nodup_subscribeFinish _ _ _ _ hn)
 
-theorem phase3_mirror (t : Int) (subs : List (Nat × Reaction)) (p : Routing × Option Exc)
-    (hs : (subs.map (subE cfg t)).all exchInScope = true) :
+theorem phase3_mirror (t : Int) (subs : List (Nat × Reaction)) (p : Routing × Option Exc) :
     (subs.map (subE cfg t)).foldl foldExch p.1 = (resubPhase3 t subs p).1 := by
   induction subs generalizing p with
   | nil => rfl
   | cons x more ih =>
     obtain ⟨svc, r⟩ := x
-    simp only [List.map_cons, List.all_cons, Bool.and_eq_true] at hs
     simp only [List.map_cons, List.foldl_cons, resubPhase3]
-    have := (sub_exch_spec cfg p.1 svc t r hs.1).1
+    have := (sub_exch_spec cfg p.1 svc t r).1
     simp only [subE] at this ⊢
     rw [this]
-    exact ih (_, _) hs.2
+    exact ih (_, _)
 
 theorem count_ren_initial (t : Int) (rens : List ((Str × Nat) × Reaction)) (j : Nat) :
     (rens.map (renE cfg t)).countP (initialFor j) = 0 := by
@@ -184,7 +180,7 @@ theorem resubAllSusp_facts (rt : Routing) (rs : List Reaction) (hn : (keys rt).N
   have e2 : (fun x : Nat × Reaction => (⟨subscribeRequest cfg x.1 Gen.C09Gena.defaultTimeoutResubscribe, x.2⟩ : Exch))
       = subE cfg Gen.C09Gena.defaultTimeoutResubscribe := rfl
   rw [e1, e2]
-  refine ⟨?_, ?_, ?_, fun _ _ => by simp [targetOk]; split <;> rfl, ?_, fun _ _ _ => rfl⟩
+  refine ⟨?_, ?_, ?_, fun _ _ => by simp [targetOk]; split <;> rfl, ?_, fun _ _ => rfl⟩
   · apply phase3_nodup
     rw [← hp2]
     exact phase2_nodup _ _ _ hn
@@ -195,13 +191,11 @@ theorem resubAllSusp_facts (rt : Routing) (rs : List Reaction) (hn : (keys rt).N
     intro j _
     simp only [fallbackAt, callBonus, Nat.add_zero, beq_iff_eq, List.countP_append, count_ren_initial,
       count_sub_refused, count_ren_refused, count_sub_initial, hsubfst, hfb, Nat.zero_add]
-  · intro hs
-    simp only [List.all_append, Bool.and_eq_true] at hs
-    rw [List.foldl_append]
-    have h2 := phase2_mirror cfg Gen.C09Gena.defaultTimeoutResubscribe rens { rt := rt, fallbacks := [], first := none } hs.1
+  · rw [List.foldl_append]
+    have h2 := phase2_mirror cfg Gen.C09Gena.defaultTimeoutResubscribe rens { rt := rt, fallbacks := [], first := none }
     simp only at h2
     rw [h2, hp2]
-    exact phase3_mirror cfg _ subs (p2.rt, p2.first) hs.2
+    exact phase3_mirror cfg _ subs (p2.rt, p2.first)
 
 theorem judgeFacts_runCallS (susp : Bool) (rt : Routing) (c : Call) (rs : List Reaction) (hn : (keys rt).Nodup)
     (hw : callWF c) : JudgeFacts rt c (runCallS cfg susp rt c rs) := by
